@@ -8,7 +8,7 @@ import string
 
 from hypothesis import strategies as st
 
-from vf import logic
+from vf import dictionary, logic
 
 # ------------------------------------------------------------------ names
 IDENT_FIRST = string.ascii_letters
@@ -18,6 +18,20 @@ IDENT_REST = string.ascii_letters + string.digits + "_"
 def ident_names(max_size=8):
     return st.builds(lambda a, b: a + b, st.sampled_from(IDENT_FIRST),
                      st.text(alphabet=IDENT_REST, max_size=max_size - 1))
+
+
+def dict_names(pred):
+    """Names taken from the string constants of the code under test (see vf/dictionary.py)."""
+    ws = dictionary.words_matching(pred)
+    return st.sampled_from(ws) if ws else ident_names()
+
+
+def _is_ident(w):
+    return w[0] in IDENT_FIRST + "_" and all(ch in IDENT_REST for ch in w)
+
+
+def _text_ok(w):
+    return not w.startswith("'") and '"' not in w and "." not in w and all(ord(ch) >= 32 for ch in w)
 
 
 UVL_KEYWORDS = ["features", "constraints", "mandatory", "optional", "or", "alternative",
@@ -62,7 +76,7 @@ def uvl_names():
             st.sampled_from("日本語\U0001f600\U00010348")),
         min_size=1, max_size=8).map(_no_lead_apostrophe)
     return st.one_of(ident_names(), st.sampled_from(UVL_KEYWORDS), st.sampled_from(OPERATOR_WORDS),
-                     st.sampled_from(ODD_UVL), free, unicode_identifier_like())
+                     st.sampled_from(ODD_UVL), free, unicode_identifier_like(), dict_names(_text_ok))
 
 
 def unicode_names(extra_pool=()):
@@ -72,7 +86,8 @@ def unicode_names(extra_pool=()):
             "a b", " x"[1:], "1", "_", "-"] + list(extra_pool)
     free = st.text(alphabet=st.characters(blacklist_categories=("Cs", "Cc")), min_size=1,
                    max_size=8).map(_no_lead_apostrophe)
-    return st.one_of(ident_names(), st.sampled_from(pool).map(_no_lead_apostrophe), free, unicode_identifier_like())
+    return st.one_of(ident_names(), st.sampled_from(pool).map(_no_lead_apostrophe), free, unicode_identifier_like(),
+                     dict_names(lambda w: not w.startswith("'")))
 
 
 def any_unicode_names():
@@ -94,7 +109,8 @@ def xml_names():
     free = st.text(alphabet=st.characters(blacklist_categories=("Cs", "Cc", "Cn"),
                                           blacklist_characters="\ufffe\uffff\u2028\u2029\x85"),
                    min_size=1, max_size=8).map(_no_lead_apostrophe)
-    return st.one_of(ident_names(), st.sampled_from(pool), free, unicode_identifier_like()).map(lambda s: s.replace(".", "·"))
+    return st.one_of(ident_names(), st.sampled_from(pool), free, unicode_identifier_like(), dict_names(_text_ok)).map(
+        lambda s: s.replace(".", "·"))
 
 
 AFM_KEYWORDS = {"AND", "OR", "NOT", "IFF", "IMPLIES", "REQUIRES", "EXCLUDES", "Integer"}
@@ -106,7 +122,10 @@ def afm_names():
                      st.text(alphabet=string.ascii_letters + string.digits, max_size=6))
     pool = ["ANDx", "Not", "Integer1", "ORa", "NOTb", "IFFy", "Requires", "EXCLUDESz", "A1", "Zz9", "IMPLIESq",
             "And", "Or", "X"]
-    return st.one_of(base, st.sampled_from(pool)).map(lambda s: s + "x" if s in AFM_KEYWORDS else s)
+    import re as _re
+    word = _re.compile(r"^[A-Z][A-Za-z0-9]*$")
+    return st.one_of(base, st.sampled_from(pool), dict_names(lambda w: bool(word.match(w)))).map(
+        lambda s: s + "x" if s in AFM_KEYWORDS else s)
 
 
 def afm_attr_names():
@@ -394,10 +413,14 @@ def model_specs(draw, profile: Profile, min_feats=1, max_feats=12, with_ctcs=Tru
 
 
 # ------------------------------------------------------------------ profiles
-BOOLEAN_ANY = Profile(ident_names(), single=("mandatory", "optional"),
+def ident_or_dict_names():
+    return st.one_of(ident_names(), ident_names(), ident_names(), dict_names(_is_ident))
+
+
+BOOLEAN_ANY = Profile(ident_or_dict_names(), single=("mandatory", "optional"),
                       group=("alternative", "or", "mutex", "card"), layout="free", ctc_depth=3, ctc_max=3)
 
-BOOLEAN_STAR = Profile(ident_names(), single=("mandatory", "optional", "star1"),
+BOOLEAN_STAR = Profile(ident_or_dict_names(), single=("mandatory", "optional", "star1"),
                        group=("alternative", "or", "mutex", "card", "star"), layout="free", ctc_depth=3, ctc_max=3)
 
 ANY = Profile(ident_names(), single=("mandatory", "optional", "card1"),
@@ -447,7 +470,7 @@ def _ctc_names_unicode(draw, j):
 
 
 JSON = Profile(any_unicode_names(), single=("mandatory", "optional"),
-               group=("alternative", "or", "mutex", "card"), layout="free", attrs=_json_attrs,
+               group=("alternative", "or", "mutex", "card", "card", "star"), layout="free", attrs=_json_attrs,
                ctc_depth=4, ctc_max=4, ctc_names=_ctc_names_unicode, variants=VARIANTS_TEXT)
 
 
@@ -638,7 +661,8 @@ def clafer_names():
     free = st.text(alphabet=st.sampled_from(string.ascii_letters + string.digits + " _-+*/,;!#%&|@^~<>="), min_size=1,
                    max_size=6).map(lambda s: s.strip() or "z")
     reserved = CLAFER_RESERVED
-    return st.one_of(ident_names(6), ident_names(6), st.sampled_from(pool), free, unicode_identifier_like()).map(
+    return st.one_of(ident_names(6), ident_names(6), st.sampled_from(pool), free, unicode_identifier_like(),
+                     dict_names(_text_ok), st.sampled_from(["v1.2", "a.b", "x.y.z"])).map(
         lambda s: s + "_" if s in reserved else s)
 
 
